@@ -1,0 +1,25 @@
+//! Verification hooks (feature `verif`): read-only gauges of the socket dispatcher's tables.
+
+use super::Dispatcher;
+use crate::traits::{Transport, UtpEnvironment};
+
+impl<T: Transport, E: UtpEnvironment> Dispatcher<T, E> {
+    /// Publishes the sizes of the demultiplexing tables to the calling thread's gauge registry.
+    pub(crate) fn verif_gauge(&self) {
+        let connecting: usize = self.connecting.values().map(|c| c.len).sum();
+        crate::verif::set_gauge(
+            self.socket.local_addr,
+            crate::verif::SocketGauge {
+                streams: self.streams.len(),
+                connecting,
+                syn_backlog: self.accept_queue.syns.len(),
+                acceptor_parked: self.accept_queue.next_available_acceptor.is_some(),
+                max_streams: self.socket.opts.max_active_streams.get(),
+            },
+        );
+    }
+
+    pub(crate) fn verif_note_arm(&self, arm: u8) {
+        crate::verif::note_arm(self.socket.local_addr, arm);
+    }
+}
